@@ -483,9 +483,10 @@ pub fn run_c19(ctx: &Ctx, sizes_override: Option<Vec<usize>>) -> serde_json::Val
             if ctx.is_miri() {
                 vec![6]
             } else if ctx.tier == Tier::Thorough {
-                vec![0, 1, 2, 5, 50, 1000, 20_000, 100_000, 150_000, 500_000, 2_000_000]
+                vec![0, 1, 2, 5, 50, 1000, 4_100, 20_011, 100_003, 150_001, 500_009, 2_000_003]
             } else {
-                vec![0, 1, 2, 5, 50, 1000, 20_000, 120_000, 200_000]
+                // deliberately not round numbers: block-split arithmetic is exercised with remainders
+                vec![0, 1, 2, 5, 50, 1000, 4_100, 20_011, 120_013, 200_003]
             }
         }
     };
